@@ -2479,7 +2479,11 @@ def process_text(ctx: "Wtp", text: str) -> None:
                 subtitle_end_fn(ctx, token)
             elif token.startswith("<"):  # HTML tag like construct
                 tag_fn(ctx, token)
-            elif token.startswith("----") and ctx.beginning_of_line:
+            elif (
+                token.startswith("----")
+                and ctx.beginning_of_line
+                and ctx.begline_enabled  # not inside call or link arguments
+            ):
                 hline_fn(ctx, token)
             elif re.match(list_prefix_re, token):
                 list_fn(ctx, token)
